@@ -155,8 +155,19 @@ structure Db where
   /-- `L1Height` key (block number of the recorded L1 head) -/
   l1 : Option UInt64
   has : Bk → Nat → Bool
+  /-- `AggregatedBloomFilters`: the persisted filter of event-index window `w` = blocks
+  `[w*8192, w*8192+8191]` (written when the running filter rolls over, i.e. when the last block of
+  the window is stored; dropped again when that block is reverted) -/
+  agg : Nat → Bool
 
-def Db.empty : Db := { height := none, l1 := none, has := fun _ _ => false }
+def Db.empty : Db := { height := none, l1 := none, has := fun _ _ => false, agg := fun _ => false }
+
+/-- `pruneAggregatedBloomFiltersUpto(w, rangeEnd)`: is the persisted filter of window `w` inside the
+deleted key range `[key(0, 8191), key(oldestKept, oldestKept+8191))`? -/
+def aggDeleted (rangeEnd w : Nat) : Bool :=
+  match aggEnd rangeEnd with
+  | none => false
+  | some oldestKept => decide (w * numBlocksPerFilter < oldestKept)
 
 /-- `OldestRetainedBlock`: first key of the `BlockCommitments` bucket (`none` = `ErrKeyNotFound`).
 The scan is bounded by the chain height; no entry of any bucket lies above it (invariant `WF.bounded`). -/
@@ -197,6 +208,12 @@ structure St where
 
 def St.init : St := { db := Db.empty, mem := {}, job := .idle }
 
+/-- The node after `k ≥ 1` stores on the empty database, in closed form (the driver starts long chains
+from it; `Props.bulk_is_k_stores` proves it is the same database). -/
+def Db.bulk (k : Nat) : Db :=
+  { height := some (k - 1), l1 := none, has := fun _ m => decide (m < k),
+    agg := fun w => decide ((w + 1) * numBlocksPerFilter ≤ k) }
+
 inductive Op
   /-- `Store` of the next block of the chain (SanityCheckNewHeight + Store, valid block) -/
   | store
@@ -235,11 +252,23 @@ inductive Out
 
 /-- All entries of block `n` written by `writeBlockContent` + the state update. -/
 def storeBlock (d : Db) (n : Nat) : Db :=
-  { d with height := some n, has := fun i m => m == n || d.has i m }
+  { d with height := some n, has := fun i m => m == n || d.has i m,
+           -- RunningEventFilter.insert: `if blockNumber == inner.ToBlock() { WriteAggregatedBloomFilter }`
+           agg := fun w => (decide ((n + 1) % numBlocksPerFilter = 0) && w == n / numBlocksPerFilter) || d.agg w }
 
 /-- `deleteBlockContent` + state revert of block `n`. -/
 def revertBlock (d : Db) (n : Nat) : Db :=
-  { d with height := (if n = 0 then none else some (n - 1)), has := fun i m => m != n && d.has i m }
+  { d with height := (if n = 0 then none else some (n - 1)), has := fun i m => m != n && d.has i m,
+           -- RunningEventFilter.onReorg: reverting the last block of a window re-opens it and drops its persisted copy
+           agg := fun w => !(decide ((n + 1) % numBlocksPerFilter = 0) && w == n / numBlocksPerFilter) && d.agg w }
+
+/-- `onReorg` reloads the persisted filter of the window that is re-opened (`GetAggregatedBloomFilter`). -/
+def revertFilterOk (d : Db) (n : Nat) : Bool :=
+  !decide ((n + 1) % numBlocksPerFilter = 0) || d.agg (n / numBlocksPerFilter)
+
+/-- The bloom-filter part of `PruneBlockDataUpto(w, rangeEnd)`. -/
+def Db.pruneAgg (d : Db) (rangeEnd : Nat) : Db :=
+  { d with agg := fun w => d.agg w && !aggDeleted rangeEnd w }
 
 def Db.del (d : Db) (p : Bk → Nat → Bool) : Db :=
   { d with has := fun i m => d.has i m && !p i m }
@@ -290,7 +319,8 @@ def step (c : Cfg) (s : St) : Op → St × Out
     match s.db.height with
     | none => (s, .err)
     | some h =>
-      if s.db.has .su h && s.db.has .hdr h && s.db.has .txs h && (!c.legacy || s.db.has .hist h) then
+      if s.db.has .su h && s.db.has .hdr h && s.db.has .txs h && (!c.legacy || s.db.has .hist h)
+          && revertFilterOk s.db h then
         ({ s with db := revertBlock s.db h }, .ok)
       else (s, .err)
   | .writeL1 n => ({ s with db := { s.db with l1 := some n } }, .ok)
@@ -318,7 +348,8 @@ def step (c : Cfg) (s : St) : Op → St × Out
     | .run start end_ cur first =>
       if cur + k ≤ end_ then
         if loopReadsOk s.db cur k then
-          ({ s with db := s.db.del (flushDel c start end_ cur (cur + k) first),
+          let db := s.db.del (flushDel c start end_ cur (cur + k) first)
+          ({ s with db := (if c.fixed then db.pruneAgg (cur + k) else db),
                     job := .run start end_ (cur + k) false }, .ok)
         else ({ s with job := .idle }, .err)
       else (s, .bad)
@@ -328,7 +359,7 @@ def step (c : Cfg) (s : St) : Op → St × Out
     | .run start _ cur first =>
       if first then (s, .bad)   -- the hash-keyed batch is always written before the call ends
       else
-        let db := if c.fixed then s.db else s.db.del (rangeDel cur)
+        let db := if c.fixed then s.db else (s.db.del (rangeDel cur)).pruneAgg cur
         ({ db := db, mem := { s.mem with sampled := umax s.mem.sampled (UInt64.ofNat cur) }, job := .idle },
          .done (cur - start) cur)
   | .fail =>
@@ -391,6 +422,14 @@ def stateRead (c : Cfg) (d : Db) (b h : Nat) : Ans :=
   if !c.legacy then .ok           -- core/state keeps its history in buckets the pruner never touches
   else if histComplete d b h then .ok else .stale (servedAs d b h)
 
+/-- `MatchedBlockIterator.loadNextWindow` over `[n, h]`: every window of the range except the one the
+running filter holds (the window of block `h+1`) is read from the persisted filters (cache fallback
+`core.GetAggregatedBloomFilter`; the in-memory LRU cache is not modelled: a fresh process has none). -/
+def windowsOk (d : Db) (n h : Nat) : Bool :=
+  (List.range (h / numBlocksPerFilter + 1 - n / numBlocksPerFilter)).all fun j =>
+    let w := n / numBlocksPerFilter + j
+    w == (h + 1) / numBlocksPerFilter || d.agg w
+
 def allOf (d : Db) (n : Nat) (bs : List Bk) : Ans :=
   if bs.all (fun i => d.has i n) then .ok else .notfound
 
@@ -419,8 +458,9 @@ def answer (c : Cfg) (s : St) (q : Q) (n : Nat) : Ans :=
     | none => .notfound          -- the chain height read fails
     | some h =>
       if n > h then .ok          -- nothing to scan; retention is only consulted for start blocks <= head
-      else if d.has .comm n then -- RequireRetained(startBlock), then receipts + header hash of the scanned blocks
-        (if (List.range (h + 1 - n)).all (fun j => d.has .txs (n + j) && d.has .hdr (n + j)) then .ok else .notfound)
+      else if d.has .comm n then -- RequireRetained(startBlock), then per window the bloom filter, then receipts + header hash
+        (if (List.range (h + 1 - n)).all (fun j => d.has .txs (n + j) && d.has .hdr (n + j)) && windowsOk d n h
+         then .ok else .notfound)
       else .pruned
   | .stateAtNumber =>
     match d.height with
